@@ -111,9 +111,20 @@ func need(k, n int) int { return (k*n + 999) / 1000 }
 
 // memberSigns builds a sign list with `good` correct member signs plus noise signs that must not count:
 // members signing with a foreign key, outsiders, and (when given) the candidate itself.
-func (g *Gen) memberSigns(c *Case, good int, outsiders []Ident, res *vh.Result) []signer {
+func (g *Gen) memberSigns(c *Case, good int, outsiders []Ident, res *vh.Result, exclude base.Address) []signer {
 	var ss []signer
 	ms := g.subset(c.Members, len(c.Members))
+	if exclude != nil {
+		// one sign per node in an operation: the joining address signs with the candidate key, so the member of
+		// that address cannot also sign
+		var keep []Member
+		for _, m := range ms {
+			if !m.Addr.Equal(exclude) {
+				keep = append(keep, m)
+			}
+		}
+		ms = keep
+	}
 	if good > len(ms) {
 		good = len(ms)
 	}
@@ -215,6 +226,28 @@ func (g *Gen) RandomCase(res *vh.Result, c10 bool) *Case {
 			}
 			c.Cands = append(c.Cands, x)
 		}
+		if r.Chance(1, 4) {
+			// a candidate record whose ADDRESS is a current member's (the candidate processor never registers one,
+			// but the join processor must not rely on that): with another key, or with the member's own key.
+			// Joins for it are well formed (self-signed with the candidate key, enough other members).
+			nk := 1 + r.Intn(2)
+			for i := 0; i < nk; i++ {
+				m := c.Members[r.Intn(len(c.Members))]
+				id := Ident{Addr: m.Addr, Priv: m.Priv}
+				if r.Chance(2, 3) {
+					id.Priv = g.newIdent().Priv
+					res.Dist("cand:member-address-other-key")
+				} else {
+					res.Dist("cand:member-address-same-key")
+				}
+				x := Cand{Addr: id.Addr, Pub: id.Pub(), Start: c.Height - base.Height(r.Intn(3)), Deadline: c.Height + base.Height(1+r.Intn(3))}
+				c.Cands = append(c.Cands, x)
+				live = append(live, id)
+				if r.Chance(1, 2) {
+					live = append(live, id) // more likely to be picked for a join
+				}
+			}
+		}
 		if len(c.Cands) > 0 && r.Chance(1, 12) {
 			// the same address registered twice with different keys (never produced by the merger, which
 			// replaces; exercises the last-wins candidates map)
@@ -272,7 +305,7 @@ func (g *Gen) RandomCase(res *vh.Result, c10 bool) *Case {
 				start += base.Height(1 + r.Intn(2))
 				note += ",wrong-start"
 			}
-			ss := g.memberSigns(c, g.signCountChoice(c.K, n, res), outsiders, res)
+			ss := g.memberSigns(c, g.signCountChoice(c.K, n, res), outsiders, res, id.Addr)
 			self := signer{id.Addr, id.Priv}
 			switch r.Intn(10) {
 			case 0:
@@ -408,7 +441,7 @@ func (g *Gen) RandomCase(res *vh.Result, c10 bool) *Case {
 			} else {
 				note += "new"
 			}
-			ss := g.memberSigns(c, g.signCountChoice(c.K, n, res), outsiders, res)
+			ss := g.memberSigns(c, g.signCountChoice(c.K, n, res), outsiders, res, nil)
 			if len(ss) == 0 {
 				ss = []signer{{outsiders[0].Addr, outsiders[0].Priv}}
 			}
@@ -716,6 +749,24 @@ func (g *Gen) Corpus() []*Case {
 		c.Ops = []Op{
 			g.Join(c1.Addr, 10, append([]signer{{c1.Addr, c1.Priv}}, s57...)),
 			g.Join(c2.Addr, 10, append([]signer{{c2.Addr, c2.Priv}}, s58...)),
+		}
+		c.Prepare()
+		out = append(out, c)
+	}
+	// D (seeded/C17-C): 4 members, a candidate record with member 0's ADDRESS and another key; a well-formed join for
+	// it, self-signed with the candidate key and signed by the 3 other members (75% >= 67%), must be refused
+	{
+		c := &Case{Height: 20, K: 670, Lifespan: 3, SufHeight: 5, HasCands: true, Policy: policyVariant(0)}
+		for i := 0; i < 4; i++ {
+			c.Members = append(c.Members, Member{g.newIdent(), 2})
+		}
+		other := g.newIdent()
+		fresh := g.newIdent()
+		c.Cands = []Cand{{c.Members[0].Addr, other.Pub(), 18, 22}, {fresh.Addr, fresh.Pub(), 18, 22}}
+		three := []signer{sg(c.Members[1]), sg(c.Members[2]), sg(c.Members[3])}
+		c.Ops = []Op{
+			g.Join(c.Members[0].Addr, 18, append([]signer{{c.Members[0].Addr, other.Priv}}, three...)),
+			g.Join(fresh.Addr, 18, append([]signer{{fresh.Addr, fresh.Priv}}, three...)),
 		}
 		c.Prepare()
 		out = append(out, c)
